@@ -2,7 +2,7 @@
    M = the node-vector trie of Model.v (what zipora calls Patricia storage), S = a duplicate-free list of keys. *)
 From ZV.Common Require Import Base Run.
 From ZV.C05 Require Import Model Spec ProofsBase ProofsInsert ProofsRemove ProofsRefine ProofsKeys ProofsLouds ProofsSpec ProofsClone.
-From ZV.C05 Require Import ModelFsa ModelDa ModelCs ModelAll ProofsFsa.
+From ZV.C05 Require Import ModelFsa ModelDa ModelCs ModelAll ProofsFsa ProofsDaArr ProofsDaInv ProofsDaReloc ProofsDaReloc2 ProofsDaInsert.
 Open Scope N_scope.
 
 (* ptrie_refines_set: for EVERY history of insert / remove / contains / len / accepts / longest_prefix calls
@@ -212,3 +212,67 @@ Check fsa_generic_is_patricia : forall ns q,
   fsa_accepts ns q = g_accepts (child ns) (fin ns) 0%nat q /\
   fsa_longest_prefix ns q = g_longest_prefix (child ns) (fin ns) 0%nat q.
 Print Assumptions fsa_generic_is_patricia.
+
+(* ------------------------------------------------------------------ double-array storage (ModelDa.v) *)
+
+(* da_refines_set: for EVERY history of insert / contains / len / accepts / longest_prefix calls over byte-string keys in
+   which no insert returns Err (relocate_state gives up after 10001 attempts of stride 257, which needs arrays of
+   millions of slots), the ZiporaTrie over the double array started empty - base/check arrays, terminal bit, growth,
+   find_free_base, collision handling and relocation included - answers exactly like the set of keys inserted.
+   remove is `_ => Ok(false)` for this storage (da_remove_refuted); keys / keys_with_prefix: da_keys_enumerates *)
+Theorem da_refines_set : forall ops, Forall da_op_ok ops -> d_noerr d_empty ops = true -> d_run d_empty ops = s_run [] ops.
+Proof. exact da_refines_set_proof. Qed.
+Check da_refines_set : forall ops, Forall da_op_ok ops -> d_noerr d_empty ops = true -> d_run d_empty ops = s_run [] ops.
+Print Assumptions da_refines_set.
+
+(* ... and the state reached satisfies the shape invariant (a ghost address per used slot, every used slot inside its
+   parent's 256-window, arrays below 2^22 slots), answers lookups like the set, and counts its keys *)
+Theorem da_reachable_related : forall ops, Forall da_op_ok ops -> d_noerr d_empty ops = true -> DRel (d_exec d_empty ops) (s_exec [] ops).
+Proof. exact da_reachable_related_proof. Qed.
+Check da_reachable_related : forall ops, Forall da_op_ok ops -> d_noerr d_empty ops = true -> DRel (d_exec d_empty ops) (s_exec [] ops).
+Print Assumptions da_reachable_related.
+
+(* insert_double_array adds exactly the key *)
+Theorem da_insert_adds_exactly : forall d addr key d' e, bytes_ok key -> DInv d addr -> da_insert d key = (d', Some e) ->
+  (exists addr', DInv d' addr') /\ forall k, dlookup d' k = (dlookup d k || eqb_ln k key)%bool.
+Proof. exact da_insert_lookup. Qed.
+Check da_insert_adds_exactly : forall d addr key d' e, bytes_ok key -> DInv d addr -> da_insert d key = (d', Some e) ->
+  (exists addr', DInv d' addr') /\ forall k, dlookup d' k = (dlookup d k || eqb_ln k key)%bool.
+Print Assumptions da_insert_adds_exactly.
+
+(* da_relocation_preserves_keys: relocate_state (collect the children, search a base, free the old slots, move every
+   child with its base and terminal bit, re-parent the grandchildren, set the new base) keeps the invariant and the
+   language - every stored key with its terminal flag, none added -, gives the state the returned base and leaves the
+   slot of the new symbol free and inside the arrays *)
+Theorem da_relocation_preserves_keys : forall d addr st ns d' nb,
+  DInv d addr -> used d st -> bv d st <> NIL_STATE -> ns < 256 -> cget d (bv d st + ns) <> st ->
+  relocate_state d st ns = (d', Some nb) ->
+  exists addr', DInv d' addr' /\ used d' st /\ addr' st = addr st /\ bv d' st = nb /\
+     is_free_word (cget d' (nb + ns)) = true /\ nb + ns < blen d' /\
+     (forall k, View d' addr' k <-> View d addr k).
+Proof. exact relocate_spec. Qed.
+Check da_relocation_preserves_keys : forall d addr st ns d' nb,
+  DInv d addr -> used d st -> bv d st <> NIL_STATE -> ns < 256 -> cget d (bv d st + ns) <> st ->
+  relocate_state d st ns = (d', Some nb) ->
+  exists addr', DInv d' addr' /\ used d' st /\ addr' st = addr st /\ bv d' st = nb /\
+     is_free_word (cget d' (nb + ns)) = true /\ nb + ns < blen d' /\
+     (forall k, View d' addr' k <-> View d addr k).
+Print Assumptions da_relocation_preserves_keys.
+
+(* the language of a well-formed double array is the set of ghost addresses of its used terminal slots *)
+Theorem da_lookup_is_view : forall d addr k, DInv d addr -> (dlookup d k = true <-> View d addr k).
+Proof. exact dlookup_view. Qed.
+Check da_lookup_is_view : forall d addr k, DInv d addr -> (dlookup d k = true <-> View d addr k).
+Print Assumptions da_lookup_is_view.
+
+(* contains_double_array is the generic Trie::lookup over transition / is_final *)
+Theorem da_contains_is_lookup : forall d addr k, DInv d addr -> da_contains d k = dlookup d k.
+Proof. exact da_contains_lookup. Qed.
+Check da_contains_is_lookup : forall d addr k, DInv d addr -> da_contains d k = dlookup d k.
+Print Assumptions da_contains_is_lookup.
+
+(* recorded finding, as a refutation on the faithful model: remove is a no-op for the double array *)
+Theorem da_remove_refuted : exists ops, Forall op_ok ops /\ d_run d_empty ops <> s_run [] ops.
+Proof. exact da_remove_refuted_proof. Qed.
+Check da_remove_refuted : exists ops, Forall op_ok ops /\ d_run d_empty ops <> s_run [] ops.
+Print Assumptions da_remove_refuted.
